@@ -496,6 +496,7 @@ pub fn mon_c10(out: &mut Out, l: &str, r: &str) {
     let mut unwrapped: u64 = 0;
     let mut calls_so_far: u64 = 0;
     let mut ids: Vec<u16> = vec![];
+    let mut wire: Vec<u8> = vec![];
     for (i, o) in ops.iter().enumerate() {
         if o.name != "call" && o.name != "typed" {
             continue;
@@ -503,11 +504,19 @@ pub fn mon_c10(out: &mut Out, l: &str, r: &str) {
         if field("b", &o.fields) != "0" {
             calls_so_far += 1;
         }
-        // frames that reached the transport during this call (a frame left over by an
-        // earlier failed write goes out first)
-        let w = written(res.get(i).copied().unwrap_or(""));
-        for f in spec::split_mbap(&w) {
-            let MbapItem::Frame(tid, _, _) = f else { continue };
+        // frames completed on the transport during this call (what an earlier failed or abandoned
+        // write left unsent – a whole frame or the tail of one – goes out first)
+        wire.extend(written(res.get(i).copied().unwrap_or("")));
+        let items = spec::split_mbap(&wire);
+        let mut used = 0;
+        let mut done: Vec<u16> = vec![];
+        for f in &items {
+            let MbapItem::Frame(tid, _, p) = f else { break };
+            done.push(*tid);
+            used += 7 + p.len();
+        }
+        wire.drain(..used);
+        for tid in done {
             match last {
                 None => unwrapped = u64::from(tid),
                 Some(prev) => {
@@ -531,6 +540,10 @@ pub fn mon_c10(out: &mut Out, l: &str, r: &str) {
         let mut idx: u64 = 0;
         for (i, o) in ops.iter().enumerate() {
             if o.name != "call" && o.name != "typed" {
+                continue;
+            }
+            // (a call that is dropped before its first poll has not run at all)
+            if field("b", &o.fields) == "0" {
                 continue;
             }
             let w = written(res.get(i).copied().unwrap_or(""));
@@ -1368,6 +1381,28 @@ pub fn gen_c20(out: &mut Out, rng: &mut Rng, thorough: bool) {
                     }
                 }
             }
+            // every count a reply can satisfy, with a reply of exactly that many items (bits: the
+            // whole bytes that hold them): a fault tied to one particular count has nowhere to hide
+            let step = if thorough { 1 } else { 1 };
+            for cnt in (1..=2000u16).step_by(step) {
+                let a = rng.u16();
+                let bits = rng.bits(usize::from(cnt).div_ceil(8) * 8);
+                let op = if cnt % 2 == 0 { TypedOp::Rc(a, cnt) } else { TypedOp::Rdi(a, cnt) };
+                let rsp = if cnt % 2 == 0 { Response::ReadCoils(bits) } else { Response::ReadDiscreteInputs(bits) };
+                monitor_line(out, &format!("{head} | typed {} r=d{}", op.tok(), hex_raw(&frame(kind, 0, unit, &spec::response_bytes(&rsp).unwrap()))));
+            }
+            for cnt in 1..=125u16 {
+                let a = rng.u16();
+                for which in 0..3 {
+                    let ws = rng.words(usize::from(cnt));
+                    let (op, rsp) = match which {
+                        0 => (TypedOp::Rhr(a, cnt), Response::ReadHoldingRegisters(ws)),
+                        1 => (TypedOp::Rir(a, cnt), Response::ReadInputRegisters(ws)),
+                        _ => (TypedOp::Rwm(a, cnt, a, vec![cnt]), Response::ReadWriteMultipleRegisters(ws)),
+                    };
+                    monitor_line(out, &format!("{head} | typed {} r=d{}", op.tok(), hex_raw(&frame(kind, 0, unit, &spec::response_bytes(&rsp).unwrap()))));
+                }
+            }
             // the largest counts a caller can ask for: far beyond what any reply can hold
             for cnt in [2000u16, 2001, 2008, 65528, 65529, 65530, 65534, 65535] {
                 for have in [0usize, 8, 2000, 2008] {
@@ -1589,6 +1624,21 @@ pub fn gen_c01(out: &mut Out, rng: &mut Rng, thorough: bool) {
             line.push_str(" w=a1,p,a2,a3,p,a5");
         }
         monitor_line(out, &line);
+    }
+    // "exactly one frame" also right after a request the client had to refuse (over the limit)
+    for kind in ["tcp", "rtu"] {
+        for i in 0..(if thorough { 200 } else { 24 }) {
+            let (n1, n2, n3) = (2 * rng.range(124, 200), rng.range(253, 400), 2 * rng.range(122, 130));
+            let big = match i % 4 {
+                0 => format!("WMR:0000:{}", hex_raw(&rng.bytes(n1))),
+                1 => format!("CU:41:{}", hex_raw(&rng.bytes(n2))),
+                2 => format!("RWM:0000:0001:0000:{}", hex_raw(&rng.bytes(n3))),
+                _ => format!("CU:{}:{}", hex8(if kind == "rtu" { 0x07 } else { 0x2B }), hex_raw(&rng.bytes(300))),
+            };
+            let unit = rng.unit();
+            let next = if rng.bool() { format!("call {}", request(&c01_request(rng, kind))) } else { format!("typed {}", typed_for(rng).tok()) };
+            monitor_line(out, &format!("cli {kind} {} | call {big} | {next}", hex8(unit)));
+        }
     }
     // every slave id, both framings
     for kind in ["tcp", "rtu"] {
